@@ -256,8 +256,9 @@ func (p *Path) queryText(full bool, extra ...string) string {
 			// (measured: |s| ~ 670 with s in ws* times out); for them the
 			// constraint is dropped (sound for "holds") and models are projected
 			lo, hi := p.ivOf(p.mkLen(cc.term))
-			if hi != nil && hi.IsInt64() && hi.Int64() <= 24 {
-				if strings.HasPrefix(cc.class, "alpha:") && lo != nil && lo.Cmp(hi) == 0 && hi.Int64() >= 8 {
+			exact := hi != nil && lo != nil && lo.Cmp(hi) == 0 && strings.HasPrefix(cc.class, "alpha:")
+			if hi != nil && hi.IsInt64() && (hi.Int64() <= 24 || (exact && hi.Int64() <= 64)) {
+				if exact && hi.Int64() >= 8 {
 					// exact length: a counted loop is much cheaper than star + length (measured)
 					n := hi.String()
 					b.WriteString("(assert (str.in_re " + cc.term.e + " ((_ re.loop " + n + " " + n + ") " + cc.class[6:] + ")))\n")
